@@ -438,6 +438,7 @@ Section Auth.
       apply M, G, R.
     - specialize (R true). destruct (do_receives verify true true s) as [s' [k|]]; cbn [fst] in *; [exact R|].
       apply M, G, R.
+    - repeat split; auto.
   Qed.
 End Auth.
 
